@@ -20,11 +20,11 @@ def reset():
 
 
 def set_size(size: int):
-    for cached in _cached:
-        wrapped = cached.__wrapped__
-        setattr(
-            sys.modules[wrapped.__module__], wrapped.__name__, lru_cache(size)(wrapped)
-        )
+    for wrapped in list(dict.fromkeys(cached.__wrapped__ for cached in _cached)):
+        resized = lru_cache(size)(wrapped)
+        # previous caches can still be referenced by modules which have imported them
+        _cached.append(resized)
+        setattr(sys.modules[wrapped.__module__], wrapped.__name__, resized)
 
 
 K = TypeVar("K")
